@@ -57,6 +57,9 @@ func hostilePrograms(r *rand.Rand) []*Program {
 		add("cyclic-array: "+use, "a := [1]\na[0] = a\n"+use)
 		add("cyclic-map: "+use, "a := {x: 1}\na.x = a\n"+strings.ReplaceAll(strings.ReplaceAll(use, "a[0][0][0]", "a.x.x.x"), "a + a", "a.x == a"))
 	}
+	// the shape in which generated programs meet the defect: the self-containing value sits in a block variable that no statement
+	// traverses - the host's own calls after the run (GetAll, Clone) do
+	add("cyclic-random-shape", "if true {\n  v12 := {b: 2, k1: 0}\n  v12.a = v12\n}\nr := 1")
 	add("cyclic-mutual", "a := [0]\nb := {k: a}\na[0] = b\nr := string(b)")
 	// builtins with extreme arguments
 	for _, e := range []string{"bytes(-1)", "bytes(1 << 40)", "range(0, 10, 0)", "range(0, 10, -1)", "splice([1], -1)",
